@@ -195,6 +195,116 @@ Definition send_command_code : list dstmt :=
 (* driver/network/sendconfig.go Driver.SendConfig *)
 Definition send_config_code : list dstmt :=
   [DAssign "configLines" "strings.Split(config, ""\n"")"; DCall "d.SendConfigs(configLines, opts...)"; DIf (DNot (DEq "err" "nil")) [DReturn "nil, err"] []; DAssign "r" "response.NewResponse( config, d.Transport.GetHost(), d.Transport.GetPort(), m.Responses[0].FailedWhenContains, )"; DAssign "rOutputs" "make([]string, len(m.Responses))"; DRange "resp" "m.Responses" [DAssign "i" "index of resp"; DAssign "rOutputs[i]" "resp.Result"]; DAssign "r.StartTime" "m.StartTime"; DAssign "r.EndTime" "time.Now()"; DAssign "r.ElapsedTime" "r.EndTime.Sub(r.StartTime).Seconds()"; DAssign "r.Result" "strings.Join(rOutputs, ""\n"")"; DAssign "r.Failed" "m.Failed"; DReturn "r, nil"].
+(* driver/options/*.go (C19): the closures *)
+Definition option_code : list (string * list dstmt) := [
+  ("WithAuthUsername",
+   [DAssign "a" "o.(*transport.Args)"; DAssign "ok" "ok of o.(*transport.Args)"; DIf (DNot (DAtom "ok")) [DReturn "util.ErrIgnoredOption"] []; DAssign "a.User" "s"; DReturn "nil"]);
+  ("WithAuthPassword",
+   [DAssign "a" "o.(*transport.Args)"; DAssign "ok" "ok of o.(*transport.Args)"; DIf (DNot (DAtom "ok")) [DReturn "util.ErrIgnoredOption"] []; DAssign "a.Password" "s"; DReturn "nil"]);
+  ("WithAuthSecondary",
+   [DAssign "d" "o.(*network.Driver)"; DAssign "ok" "ok of o.(*network.Driver)"; DIf (DNot (DAtom "ok")) [DReturn "util.ErrIgnoredOption"] []; DAssign "d.AuthSecondary" "s"; DReturn "nil"]);
+  ("WithAuthPassphrase",
+   [DAssign "a" "o.(*transport.SSHArgs)"; DAssign "ok" "ok of o.(*transport.SSHArgs)"; DIf (DNot (DAtom "ok")) [DReturn "util.ErrIgnoredOption"] []; DAssign "a.PrivateKeyPassPhrase" "s"; DReturn "nil"]);
+  ("WithAuthBypass",
+   [DAssign "c" "o.(*channel.Channel)"; DAssign "ok" "ok of o.(*channel.Channel)"; DIf (DNot (DAtom "ok")) [DReturn "util.ErrIgnoredOption"] []; DAssign "c.AuthBypass" "true"; DReturn "nil"]);
+  ("WithPromptSearchDepth",
+   [DAssign "c" "o.(*channel.Channel)"; DAssign "ok" "ok of o.(*channel.Channel)"; DIf (DNot (DAtom "ok")) [DReturn "util.ErrIgnoredOption"] []; DAssign "c.PromptSearchDepth" "i"; DReturn "nil"]);
+  ("WithPromptPattern",
+   [DAssign "c" "o.(*channel.Channel)"; DAssign "ok" "ok of o.(*channel.Channel)"; DIf (DNot (DAtom "ok")) [DReturn "util.ErrIgnoredOption"] []; DAssign "c.PromptPattern" "p"; DReturn "nil"]);
+  ("WithUsernamePattern",
+   [DAssign "c" "o.(*channel.Channel)"; DAssign "ok" "ok of o.(*channel.Channel)"; DIf (DNot (DAtom "ok")) [DReturn "util.ErrIgnoredOption"] []; DAssign "c.UsernamePattern" "p"; DReturn "nil"]);
+  ("WithPasswordPattern",
+   [DAssign "c" "o.(*channel.Channel)"; DAssign "ok" "ok of o.(*channel.Channel)"; DIf (DNot (DAtom "ok")) [DReturn "util.ErrIgnoredOption"] []; DAssign "c.PasswordPattern" "p"; DReturn "nil"]);
+  ("WithPassphrasePattern",
+   [DAssign "c" "o.(*channel.Channel)"; DAssign "ok" "ok of o.(*channel.Channel)"; DIf (DNot (DAtom "ok")) [DReturn "util.ErrIgnoredOption"] []; DAssign "c.PassphrasePattern" "p"; DReturn "nil"]);
+  ("WithReturnChar",
+   [DAssign "c" "o.(*channel.Channel)"; DAssign "ok" "ok of o.(*channel.Channel)"; DIf (DNot (DAtom "ok")) [DReturn "util.ErrIgnoredOption"] []; DAssign "c.ReturnChar" "[]byte(s)"; DReturn "nil"]);
+  ("WithTimeoutOps",
+   [DAssign "c" "o.(*channel.Channel)"; DAssign "ok" "ok of o.(*channel.Channel)"; DIf (DNot (DAtom "ok")) [DReturn "util.ErrIgnoredOption"] []; DAssign "c.TimeoutOps" "t"; DReturn "nil"]);
+  ("WithReadDelay",
+   [DAssign "c" "o.(*channel.Channel)"; DAssign "ok" "ok of o.(*channel.Channel)"; DIf (DNot (DAtom "ok")) [DReturn "util.ErrIgnoredOption"] []; DAssign "c.ReadDelay" "t"; DReturn "nil"]);
+  ("WithChannelLog",
+   [DAssign "c" "o.(*channel.Channel)"; DAssign "ok" "ok of o.(*channel.Channel)"; DIf (DNot (DAtom "ok")) [DReturn "util.ErrIgnoredOption"] []; DAssign "c.ChannelLog" "w"; DReturn "nil"]);
+  ("WithTransportType",
+   [DAssign "d" "o.(*generic.Driver)"; DAssign "ok" "ok of o.(*generic.Driver)"; DIf (DNot (DAtom "ok")) [DReturn "util.ErrIgnoredOption"] []; DSwitch "transportType" [(["transport.SystemTransport"; "transport.StandardTransport"; "transport.TelnetTransport"; "transport.FileTransport"], [DAssign "d.TransportType" "transportType"]); ([], [DReturn "error"])]; DReturn "nil"]);
+  ("WithFailedWhenContains",
+   [DAssign "d" "o.(*generic.Driver)"; DAssign "ok" "ok of o.(*generic.Driver)"; DIf (DNot (DAtom "ok")) [DReturn "util.ErrIgnoredOption"] []; DAssign "d.FailedWhenContains" "fw"; DReturn "nil"]);
+  ("WithOnOpen",
+   [DAssign "d" "o.(*generic.Driver)"; DAssign "ok" "ok of o.(*generic.Driver)"; DIf (DNot (DAtom "ok")) [DReturn "util.ErrIgnoredOption"] []; DAssign "d.OnOpen" "f"; DReturn "nil"]);
+  ("WithOnClose",
+   [DAssign "d" "o.(*generic.Driver)"; DAssign "ok" "ok of o.(*generic.Driver)"; DIf (DNot (DAtom "ok")) [DReturn "util.ErrIgnoredOption"] []; DAssign "d.OnClose" "f"; DReturn "nil"]);
+  ("WithLogger",
+   [DAssign "d" "o.(*generic.Driver)"; DAssign "ok" "ok of o.(*generic.Driver)"; DIf (DNot (DAtom "ok")) [DReturn "util.ErrIgnoredOption"] []; DAssign "d.Logger" "l"; DReturn "nil"]);
+  ("WithDefaultLogger",
+   [DAssign "d" "o.(*generic.Driver)"; DAssign "ok" "ok of o.(*generic.Driver)"; DIf (DNot (DAtom "ok")) [DReturn "util.ErrIgnoredOption"] []; DCall "logging.NewInstance( logging.WithLevel(""info""), logging.WithLogger(log.Print), )"; DIf (DNot (DEq "err" "nil")) [DReturn "err"] []; DAssign "d.Logger" "l"; DReturn "nil"]);
+  ("WithNetconfPreferredVersion",
+   [DSwitch "s" [(["netconf.V1Dot0"; "netconf.V1Dot1"], []); ([], [DReturn "error"])]; DAssign "d" "o.(*netconf.Driver)"; DAssign "ok" "ok of o.(*netconf.Driver)"; DIf (DNot (DAtom "ok")) [DReturn "util.ErrIgnoredOption"] []; DAssign "d.PreferredVersion" "s"; DReturn "nil"]);
+  ("WithNetconfForceSelfClosingTags",
+   [DAssign "d" "o.(*netconf.Driver)"; DAssign "ok" "ok of o.(*netconf.Driver)"; DIf (DNot (DAtom "ok")) [DReturn "util.ErrIgnoredOption"] []; DAssign "d.ForceSelfClosingTags" "true"; DReturn "nil"]);
+  ("WithNetconfExcludeHeader",
+   [DAssign "d" "o.(*netconf.Driver)"; DAssign "ok" "ok of o.(*netconf.Driver)"; DIf (DNot (DAtom "ok")) [DReturn "util.ErrIgnoredOption"] []; DAssign "d.ExcludeHeader" "true"; DReturn "nil"]);
+  ("WithNetworkOnOpen",
+   [DAssign "d" "o.(*network.Driver)"; DAssign "ok" "ok of o.(*network.Driver)"; DIf (DNot (DAtom "ok")) [DReturn "util.ErrIgnoredOption"] []; DAssign "d.OnOpen" "f"; DReturn "nil"]);
+  ("WithNetworkOnClose",
+   [DAssign "d" "o.(*network.Driver)"; DAssign "ok" "ok of o.(*network.Driver)"; DIf (DNot (DAtom "ok")) [DReturn "util.ErrIgnoredOption"] []; DAssign "d.OnClose" "f"; DReturn "nil"]);
+  ("WithPrivilegeLevels",
+   [DAssign "d" "o.(*network.Driver)"; DAssign "ok" "ok of o.(*network.Driver)"; DIf (DNot (DAtom "ok")) [DReturn "util.ErrIgnoredOption"] []; DAssign "d.PrivilegeLevels" "privilegeLevels"; DReturn "nil"]);
+  ("WithDefaultDesiredPriv",
+   [DAssign "d" "o.(*network.Driver)"; DAssign "ok" "ok of o.(*network.Driver)"; DIf (DNot (DAtom "ok")) [DReturn "util.ErrIgnoredOption"] []; DAssign "d.DefaultDesiredPriv" "s"; DReturn "nil"]);
+  ("WithCustomTransport",
+   [DAssign "a" "o.(*transport.Args)"; DAssign "ok" "ok of o.(*transport.Args)"; DIf (DNot (DAtom "ok")) [DReturn "util.ErrIgnoredOption"] []; DAssign "a.UserImplementation" "i"; DReturn "nil"]);
+  ("WithTransportReadSize",
+   [DAssign "a" "o.(*transport.Args)"; DAssign "ok" "ok of o.(*transport.Args)"; DIf (DNot (DAtom "ok")) [DReturn "util.ErrIgnoredOption"] []; DAssign "a.ReadSize" "i"; DReturn "nil"]);
+  ("WithPort",
+   [DAssign "a" "o.(*transport.Args)"; DAssign "ok" "ok of o.(*transport.Args)"; DIf (DNot (DAtom "ok")) [DReturn "util.ErrIgnoredOption"] []; DAssign "a.Port" "i"; DReturn "nil"]);
+  ("WithTermHeight",
+   [DAssign "a" "o.(*transport.Args)"; DAssign "ok" "ok of o.(*transport.Args)"; DIf (DNot (DAtom "ok")) [DReturn "util.ErrIgnoredOption"] []; DAssign "a.TermHeight" "i"; DReturn "nil"]);
+  ("WithTermWidth",
+   [DAssign "a" "o.(*transport.Args)"; DAssign "ok" "ok of o.(*transport.Args)"; DIf (DNot (DAtom "ok")) [DReturn "util.ErrIgnoredOption"] []; DAssign "a.TermWidth" "i"; DReturn "nil"]);
+  ("WithTimeoutSocket",
+   [DAssign "a" "o.(*transport.Args)"; DAssign "ok" "ok of o.(*transport.Args)"; DIf (DNot (DAtom "ok")) [DReturn "util.ErrIgnoredOption"] []; DAssign "a.TimeoutSocket" "t"; DReturn "nil"]);
+  ("WithFileTransportFile",
+   [DAssign "t" "o.(*transport.File)"; DAssign "ok" "ok of o.(*transport.File)"; DIf (DNot (DAtom "ok")) [DReturn "util.ErrIgnoredOption"] []; DAssign "t.F" "s"; DReturn "nil"]);
+  ("WithAuthPrivateKey",
+   [DAssign "a" "o.(*transport.SSHArgs)"; DAssign "ok" "ok of o.(*transport.SSHArgs)"; DIf (DNot (DAtom "ok")) [DReturn "util.ErrIgnoredOption"] []; DAssign "a.PrivateKeyPath" "ks"; DAssign "a.PrivateKeyPassPhrase" "ps"; DReturn "nil"]);
+  ("WithAuthNoStrictKey",
+   [DAssign "a" "o.(*transport.SSHArgs)"; DAssign "ok" "ok of o.(*transport.SSHArgs)"; DIf (DNot (DAtom "ok")) [DReturn "util.ErrIgnoredOption"] []; DAssign "a.StrictKey" "false"; DReturn "nil"]);
+  ("WithSSHConfigFile",
+   [DAssign "a" "o.(*transport.SSHArgs)"; DAssign "ok" "ok of o.(*transport.SSHArgs)"; DIf (DNot (DAtom "ok")) [DReturn "util.ErrIgnoredOption"] []; DCall "util.ResolveFilePath(s)"; DIf (DNot (DEq "err" "nil")) [DReturn "util.ErrFileNotFoundError"] []; DAssign "a.ConfigFile" "sshF"; DReturn "nil"]);
+  ("WithSSHConfigFileSystem",
+   [DAssign "a" "o.(*transport.SSHArgs)"; DAssign "ok" "ok of o.(*transport.SSHArgs)"; DIf (DNot (DAtom "ok")) [DReturn "util.ErrIgnoredOption"] []; DCall "util.ResolveFilePath(""~/.ssh/config"")"; DIf (DEq "err" "nil") [DAssign "a.ConfigFile" "sshF"; DReturn "nil"] []; DCall "util.ResolveFilePath(""/etc/ssh/ssh_config"")"; DIf (DEq "err" "nil") [DAssign "a.ConfigFile" "sshF"; DReturn "nil"] []; DReturn "error"]);
+  ("WithSSHKnownHostsFile",
+   [DAssign "a" "o.(*transport.SSHArgs)"; DAssign "ok" "ok of o.(*transport.SSHArgs)"; DIf (DNot (DAtom "ok")) [DReturn "util.ErrIgnoredOption"] []; DCall "util.ResolveFilePath(s)"; DIf (DNot (DEq "err" "nil")) [DReturn "util.ErrFileNotFoundError"] []; DAssign "a.KnownHostsFile" "sshF"; DReturn "nil"]);
+  ("WithSSHKnownHostsFileSystem",
+   [DAssign "a" "o.(*transport.SSHArgs)"; DAssign "ok" "ok of o.(*transport.SSHArgs)"; DIf (DNot (DAtom "ok")) [DReturn "util.ErrIgnoredOption"] []; DCall "util.ResolveFilePath(""~/.ssh/known_hosts"")"; DIf (DEq "err" "nil") [DAssign "a.KnownHostsFile" "sshF"; DReturn "nil"] []; DCall "util.ResolveFilePath(""/etc/ssh/ssh_known_hosts"")"; DIf (DEq "err" "nil") [DAssign "a.KnownHostsFile" "sshF"; DReturn "nil"] []; DReturn "error"]);
+  ("WithStandardTransportExtraCiphers",
+   [DAssign "t" "o.(*transport.Standard)"; DAssign "ok" "ok of o.(*transport.Standard)"; DIf (DNot (DAtom "ok")) [DReturn "util.ErrIgnoredOption"] []; DAssign "t.ExtraCiphers" "l"; DReturn "nil"]);
+  ("WithStandardTransportExtraKexs",
+   [DAssign "t" "o.(*transport.Standard)"; DAssign "ok" "ok of o.(*transport.Standard)"; DIf (DNot (DAtom "ok")) [DReturn "util.ErrIgnoredOption"] []; DAssign "t.ExtraKexs" "l"; DReturn "nil"]);
+  ("WithSystemTransportOpenBin",
+   [DAssign "t" "o.(*transport.System)"; DAssign "ok" "ok of o.(*transport.System)"; DIf (DNot (DAtom "ok")) [DReturn "util.ErrIgnoredOption"] []; DAssign "t.OpenBin" "s"; DReturn "nil"]);
+  ("WithSystemTransportOpenArgs",
+   [DAssign "t" "o.(*transport.System)"; DAssign "ok" "ok of o.(*transport.System)"; DIf (DNot (DAtom "ok")) [DReturn "util.ErrIgnoredOption"] []; DAssign "t.ExtraArgs" "append(t.ExtraArgs, l...)"; DReturn "nil"]);
+  ("WithSystemTransportOpenArgsOverride",
+   [DAssign "t" "o.(*transport.System)"; DAssign "ok" "ok of o.(*transport.System)"; DIf (DNot (DAtom "ok")) [DReturn "util.ErrIgnoredOption"] []; DAssign "t.OpenArgs" "l"; DReturn "nil"])].
+(* the option loops of the constructors (C19) *)
+Definition option_loops : list (string * dstmt) := [
+  ("driver/generic/driver.go NewDriver",
+   DRange "option" "opts" [DAssign "err" "option(d)"; DIf (DAtom "errors.Is(err, util.ErrIgnoredOption)") [DAssign "err" "nil"] []]);
+  ("driver/network/driver.go NewDriver",
+   DRange "option" "opts" [DAssign "err" "option(d)"; DIf (DNot (DEq "err" "nil")) [DIf (DNot (DAtom "errors.Is(err, util.ErrIgnoredOption)")) [DReturn "nil, err"] []] []]);
+  ("driver/netconf/driver.go NewDriver",
+   DRange "option" "opts" [DAssign "err" "option(d)"; DIf (DNot (DEq "err" "nil")) [DIf (DNot (DAtom "errors.Is(err, util.ErrIgnoredOption)")) [DReturn "nil, err"] []] []]);
+  ("transport/factory.go NewTransport",
+   DRange "option" "options" [DAssign "err" "option(i)"; DIf (DNot (DEq "err" "nil")) [DIf (DNot (DAtom "errors.Is(err, util.ErrIgnoredOption)")) [DReturn "nil, err"] []] []]);
+  ("transport/transport.go NewArgs",
+   DRange "option" "options" [DAssign "err" "option(a)"; DIf (DNot (DEq "err" "nil")) [DIf (DNot (DAtom "errors.Is(err, util.ErrIgnoredOption)")) [DReturn "nil, err"] []] []]);
+  ("transport/transport.go NewSSHArgs",
+   DRange "option" "options" [DAssign "err" "option(a)"; DIf (DNot (DEq "err" "nil")) [DIf (DNot (DAtom "errors.Is(err, util.ErrIgnoredOption)")) [DReturn "nil, err"] []] []]);
+  ("transport/transport.go NewTelnetArgs",
+   DRange "option" "options" [DAssign "err" "option(a)"; DIf (DNot (DEq "err" "nil")) [DIf (DNot (DAtom "errors.Is(err, util.ErrIgnoredOption)")) [DReturn "nil, err"] []] []]);
+  ("channel/channel.go NewChannel",
+   DRange "option" "options" [DAssign "err" "option(c)"; DIf (DNot (DEq "err" "nil")) [DIf (DNot (DAtom "errors.Is(err, util.ErrIgnoredOption)")) [DReturn "nil, err"] []] []])].
 (* util/queue.go (C20) *)
 Definition queue_code : list (string * list dstmt) := [
   ("NewQueue",
